@@ -177,6 +177,10 @@ def oracle(ctx):
         for d in ['', 'sub']:
             put('distro', d, 'distro')
             put('run', d, 'run')
+        # the system-wide directories may have a users/ of their own (with numbered sub-directories): nothing of it is for a user generator
+        for d in rnd.sample(['users', 'users/1001', 'users/2002', 'users/7', 'users/shared'], rnd.randint(0, 3)):
+            lab = rnd.choice(['distro', 'run'])
+            put(lab, d, lab)
             put('home/.config/containers/systemd', d, 'xdg')
             put('xdgrun/containers/systemd', d, 'xdgrun')
         if rnd.random() < 0.35 and os.path.isdir(os.path.join(stage, 'adm', 'users')):
